@@ -212,7 +212,7 @@ class Hooks:
         pass
 
 
-_PY_EXC = (TypeError, ValueError, IndexError, KeyError, AttributeError, ZeroDivisionError,
+_PY_EXC = (TypeError, ValueError, NameError, IndexError, KeyError, AttributeError, ZeroDivisionError,
            OverflowError, RecursionError, re.error, UnicodeError, StopIteration)
 
 _SAFE_BUILTINS = {
@@ -317,7 +317,16 @@ class Interp:
             return env.lookup(name)
         except KeyError:
             pass
-        return self._module_env_lookup(frame.module, name, frame)
+        try:
+            return self._module_env_lookup(frame.module, name, frame)
+        except Incomplete:
+            # a name that is assigned somewhere in the running function but not yet bound on this path
+            fn = frame.func.node if frame.func is not None else None
+            if fn is not None and any(isinstance(n, ast.Name) and isinstance(n.ctx, ast.Store) and
+                                      mangle(n.id, frame.cls.name if frame.cls else None) == name
+                                      for n in ast.walk(fn)):
+                raise PyRaise(UnboundLocalError, (name,), None, where=frame.func)
+            raise
 
     # attribute access ------------------------------------------------------
     def getattr(self, v, name, frame: Frame | None, node=None):
@@ -429,7 +438,8 @@ class Interp:
             return a
         for a in list(args) + list(kwargs.values()):
             if isinstance(a, (Obj, Native, ClassRef, Lazy)):
-                if f in (tuple, list, set, frozenset, dict):
+                if f in (tuple, list, set, frozenset, dict) or \
+                        isinstance(getattr(f, "__self__", None), (list, dict, set)):
                     continue
                 raise Incomplete(f"library object passed to stdlib callable {getattr(f, '__name__', f)} "
                                  f"at line {getattr(node, 'lineno', '?')}")
